@@ -182,6 +182,8 @@ type cff2CharstringHandler struct {
 
 	// the currently active ItemVariationData subtable (default to 0)
 	scalars []float32 // computed from the currently active ItemVariationData subtable
+
+	seenVSIndex bool // the vsindex operator is used at most once in a charstring
 }
 
 func (cff2CharstringHandler) Context() ps.Context { return ps.Type2Charstring }
@@ -199,6 +201,9 @@ func (met *cff2CharstringHandler) setVSIndex(index int) error {
 	}
 
 	vars := met.vars.ItemVariationDatas[index]
+	if len(vars.RegionIndexes) > len(met.vars.VariationRegionList.VariationRegions) {
+		return fmt.Errorf("invalid variation data %d: too many regions", index)
+	}
 	k := int32(len(vars.RegionIndexes)) // number of regions
 	met.scalars = append(met.scalars[:0], make([]float32, k)...)
 	for i, regionIndex := range vars.RegionIndexes {
@@ -268,6 +273,11 @@ func (met *cff2CharstringHandler) Apply(state *ps.Machine, op ps.Operator) error
 			if state.ArgStack.Top < 1 {
 				return errors.New("missing argument for vsindex operator")
 			}
+			if met.seenVSIndex {
+				// each use computes again the scalars of all the regions
+				return errors.New("vsindex operator used twice")
+			}
+			met.seenVSIndex = true
 			err = met.setVSIndex(int(state.ArgStack.Pop()))
 		case 16: // blend
 			return met.blend(state) // do not clear the arg stack
